@@ -272,9 +272,10 @@ class Recorder:
         self.want_rows = rows
         self.want_spans = spans
         self.span_mut = []      # (rule, before, after) when an argument's span changed in place
+        self.results = {}       # id(result object) -> object (kept alive): a production must build a fresh value
 
-    def add_row(self, name, ts, args, res_json, before, after, spans_b=None, spans_a=None):
-        row = {"rule": name, "ts": ts_json(ts), "a": before, "a2": after, "res": res_json}
+    def add_row(self, name, ts, args, res_json, before, after, spans_b=None, spans_a=None, alias=0):
+        row = {"rule": name, "ts": ts_json(ts), "a": before, "a2": after, "res": res_json, "alias": alias}
         key = json.dumps(row, sort_keys=True)
         if key not in self.rows:
             self.rows[key] = row
@@ -300,11 +301,17 @@ def recording(rec):
             raise
         after = [val_json(a) for a in args]
         sp_a = [span_json(a) for a in args]
+        alias = 0
         if out is None:
             res = {"k": "F"}
         else:
-            res = val_json(out.prod[match[0]])
-        rec.add_row(rule_name, ts, args, res, before, after, sp_b, sp_a)
+            robj = out.prod[match[0]]
+            res = val_json(robj)
+            # the result must be a fresh object (or a copy of an argument): an object handed out before is shared state
+            if id(robj) in rec.results and not any(robj is a for a in args):
+                alias = 1
+            rec.results[id(robj)] = robj
+        rec.add_row(rule_name, ts, args, res, before, after, sp_b, sp_a, alias=alias)
         return out
 
     PartialParse.apply_rule = apply_rule
